@@ -152,6 +152,19 @@ theorem C15_code_send_outside_dbmu (size threshold : Nat) (h : threshold ≤ siz
       ["memtable.set batch", "memtable.freeze", "db.mu.Lock", "immutables.PushBack", "memtable = reset", "db.mu.Unlock", "flushC <- imt"] := by
   rw [DBTie.rawset_table, if_pos h]
 
+
+/-- the Go code itself (the two cases of the select in `DB.run` and `DB.Close`, translated on every run): the flusher leaves
+    its loop only after the close signal and with an empty queue — so `<-db.closed` in Close returns only when every
+    queued memtable is flushed — and each round of the loop releases `db.mu` before it ends -/
+theorem C15_code_flusher_loop (closed : Bool) (queued : Nat) :
+    ((GenDB.runFlush closed queued []).1 = true → closed = true ∧ queued = 0) ∧
+    ((GenDB.runClose closed queued []).1 = true → queued = 0) ∧
+    (GenDB.runClose closed queued []).2.1 = true ∧
+    (GenDB.runFlush closed queued []).2.2 = ["flushImmutable", "checkAndCompact", "db.mu.Lock", "immutables.Remove Front", "db.mu.Unlock"] := by
+  refine ⟨(DBTie.run_exit closed queued).1, (DBTie.run_exit closed queued).2, ?_, ?_⟩
+  · rw [DBTie.runClose_table]
+  · rw [DBTie.runFlush_table]
+
 #print axioms C15_no_stuck_state
 #print axioms C15_waits_hold_only_writeLock
 #print axioms C15_lock_order
@@ -165,4 +178,5 @@ theorem C15_code_send_outside_dbmu (size threshold : Nat) (h : threshold ≤ siz
 #print axioms C15_full_queue_drains
 #print axioms C15_old_close_stuck
 #print axioms C15_code_send_outside_dbmu
+#print axioms C15_code_flusher_loop
 end Props
